@@ -346,7 +346,16 @@ int main(int argc, char* const* argv)
     }
 
     if (pipe_in || pipe_out) {
-        if (!ContinueScript(*env)) {
+        bool success;
+        try {
+            success = ContinueScript(*env);
+        } catch (const std::exception& ex) {
+            // e.g. scriptnum_error (numeric overflow / non-minimal number): a script-level failure
+            fprintf(stderr, "error: exception thrown: %s\n", ex.what());
+            print_dualstack();
+            return 1;
+        }
+        if (!success) {
             fprintf(stderr, "error: %s\n", ScriptErrorString(*env->serror).c_str());
             print_dualstack();
             return 1;
